@@ -523,6 +523,8 @@ def _run(ctx, tier, kind, work, phase, t0):
     # ---- 2. inputs --------------------------------------------------------------------------
     lex_inputs = []
     for r in recs:
+        if r["mac"] != "none" and "a" not in r["i"]:
+            continue            # the prelude only matters to inputs that mention `a`
         text = PRELUDE[r["mac"]] + "".join(SYM[c] for c in r["i"])
         lex_inputs.append(("lex:%s:%s" % (r["mac"], " ".join(r["i"])), text, {}))
     edges = edge_inputs(tier)
@@ -555,7 +557,7 @@ def _run(ctx, tier, kind, work, phase, t0):
     for n, j in enumerate(jobs):
         j.jid = n
         j.dir = os.path.join(work, "j%06d" % n)
-    ctx.notes["inputs"] = dict(lexmodes=len(lex_inputs), edge_cases=len(edges), runs=len(jobs))
+    ctx.notes["inputs"] = dict(lexmodes_dumped=len(recs), lexmodes=len(lex_inputs), edge_cases=len(edges), runs=len(jobs))
     ctx.cov["rule"] = (
         "inputs = every LexModes state TLC keeps (one per VIEW value = mode path) rendered under its prelude + the fixed "
         "list of directive / constant-expression / literal / nesting / byte-level edge cases; each is fed as source to "
